@@ -14,6 +14,7 @@ the failing value; Go != model but the round trip holds => search more values, t
 """
 import json, os, re
 import vlib
+from props import c06switch
 
 TRUSTED = ["C11: the encoders/decoders are hand-transcribed into Gallina (Model/Codec*.v); the tie compares encoder bytes and "
            "decoder outcomes on generated well-formed values and on truncated / byte-flipped encodings"]
@@ -401,7 +402,8 @@ class AttributeK(Kind):
     def wf_expr(self, x):
         return "wf_attribute " + self.coq(x)
     def dec_expr(self, hexs, sb):
-        return "oval val_attribute' (dec_attribute %s %s)" % ("true" if sb and sb["be"] else "false", cbytes(hexs))
+        # the variant of the version 2 padding switch that the source tree under test implements (tools/props/c06switch.py)
+        return "oval val_attribute' (dec_attribute_gen %s %s %s)" % (c06switch.cb(c06switch.attribute()), "true" if sb and sb["be"] else "false", cbytes(hexs))
     def proj(self, x):
         return [x["name"], self.dtk.proj(x["dt"]), self.dsk.proj(x), [x["data"]] if x["data"] else []]
     def shape(self, x):
@@ -440,7 +442,8 @@ class SuperblockK(Kind):
     def wf_expr(self, x):
         return "wf_superblock " + self.coq(x)
     def dec_expr(self, hexs, sb):
-        return "oval val_superblock' (dec_superblock %s)" % cbytes(hexs)
+        # the variant of the superblock sizes switch that the source tree under test implements (tools/props/c06switch.py)
+        return "oval val_superblock' (dec_superblock_gen %s %s)" % (c06switch.cb(c06switch.superblock()), cbytes(hexs))
     def proj(self, x):
         U = (1 << 64) - 1
         if x["version"] == 0:
@@ -1152,7 +1155,8 @@ class FilterPipeK(Kind):
     def wf_expr(self, x):
         return "wf_pipeline " + self.coq(x)
     def dec_expr(self, hexs, sb):
-        return "oval val_pipeline' (dec_pipeline %s)" % cbytes(hexs)
+        # the variant of the version 2 filter name switch that the source tree under test implements (tools/props/c06switch.py)
+        return "oval val_pipeline' (dec_pipeline_gen %s %s)" % (c06switch.cb(c06switch.pipeline()), cbytes(hexs))
     def proj(self, x):
         fs = [[f["id"], len(f["name"]) // 2, f["flags"], len(f["cd"]), f["name"], [list(f["cd"])] if f["cd"] else []] for f in x["filters"]]
         return [2, len(fs), fs]
